@@ -1,9 +1,104 @@
 import NibabelModel.Model.C11
 import Driver.Util
-/-! Line-protocol driver for C11: `C11 <op> <args...>` -> one observable line. -/
+/-! Line-protocol driver for C11: `C11 <op> <args...>` -> one observable line.
+
+  img  <1|2> <s|p> <L|B> <userOff> <datahex> <k> <code:hex>*k   save + load of an image
+  parse <L|B> <size> <hex>                                        Nifti1Extensions.from_fileobj
+  ser  <L|B> <k> <code:hex>*k                                     Nifti1Extensions.write_to / get_sizeondisk
+  size <n>                                                        get_sizeondisk for n content bytes
+  (hex: two lower-case digits per byte, "-" for the empty string) -/
 namespace Nb.Drv.C11
+open Nb Nb.C11
+
+def hexVal? (c : Char) : Option Nat :=
+  if '0' ≤ c ∧ c ≤ '9' then some (c.toNat - '0'.toNat)
+  else if 'a' ≤ c ∧ c ≤ 'f' then some (c.toNat - 'a'.toNat + 10)
+  else none
+
+def parseHexChars : List Char → Option (List Nat)
+  | [] => some []
+  | a :: b :: rest => do
+      let x ← hexVal? a
+      let y ← hexVal? b
+      let r ← parseHexChars rest
+      pure ((16 * x + y) :: r)
+  | _ => none
+
+def parseHex? (s : String) : Option (List Nat) :=
+  if s = "-" then some [] else if s.isEmpty then none else parseHexChars s.toList
+
+def hexDigit (n : Nat) : Char :=
+  if n < 10 then Char.ofNat ('0'.toNat + n) else Char.ofNat ('a'.toNat + (n - 10))
+
+def showHex (l : List Nat) : String :=
+  if l.isEmpty then "-" else String.ofList (l.flatMap (fun b => [hexDigit (b / 16 % 16), hexDigit (b % 16)]))
+
+def parseEndian? (s : String) : Option Endian :=
+  if s = "L" then some .le else if s = "B" then some .be else none
+
+def parseExt? (s : String) : Option Ext :=
+  match s.splitOn ":" with
+  | [c, h] => do
+      let code ← c.toInt?
+      let b ← parseHex? h
+      pure ⟨code, b⟩
+  | _ => none
+
+def parseExtList? (k : String) (toks : List String) : Option (List Ext) := do
+  let n ← k.toNat?
+  if toks.length ≠ n then none else toks.mapM parseExt?
+
+def showExts (l : List Ext) : String :=
+  "[" ++ ",".intercalate (l.map (fun x => toString x.code ++ ":" ++ showHex x.content)) ++ "]"
+
+def showErr : Err → String
+  | .headerData => "ERR:HeaderDataError"
+  | .overflow => "ERR:OverflowError"
+  | .value => "ERR:ValueError"
+  | .short => "ERR:short"
+  | .unmodelled => "ERR:unmodelled"
+  | .fuel => "ERR:fuel"
+
+def showLoaded : Except Err Loaded → String
+  | .ok l => "exts=" ++ showExts l.exts ++ " off=" ++ toString l.offset ++ " data=" ++ showHex l.data
+  | .error er => showErr er
 
 def handle : List String → String
+  | "img" :: fmt :: kind :: en :: off :: dat :: k :: exts =>
+      match (if fmt = "1" then some nifti1 else if fmt = "2" then some nifti2 else none),
+            (if kind = "s" then some true else if kind = "p" then some false else none),
+            parseEndian? en, off.toNat?, parseHex? dat, parseExtList? k exts with
+      | some fmt, some single, some e, some off, some dat, some exts =>
+          if dat.isEmpty then "bad-op"
+          else if single then
+            match writeSingle fmt e exts off dat with
+            | .error er => showErr er
+            | .ok f => "W off=" ++ toString f.voxOffset ++ " hdr=" ++ showHex f.after ++ " img=- R " ++
+                showLoaded (readSingle fmt e f dat.length)
+          else
+            match writePair e exts off dat with
+            | .error er => showErr er
+            | .ok p => "W off=" ++ toString p.hdr.voxOffset ++ " hdr=" ++ showHex p.hdr.after ++ " img=" ++
+                showHex p.img ++ " R " ++ showLoaded (readPair fmt e p dat.length)
+      | _, _, _, _, _, _ => "bad-op"
+  | ["parse", en, size, raw] =>
+      match parseEndian? en, size.toInt?, parseHex? raw with
+      | some e, some size, some raw =>
+          match parseExts e raw size with
+          | .ok l => "ok " ++ showExts l
+          | .error er => showErr er
+      | _, _, _ => "bad-op"
+  | "ser" :: en :: k :: exts =>
+      match parseEndian? en, parseExtList? k exts with
+      | some e, some exts =>
+          match serializeExts e exts with
+          | .ok b => "ok " ++ toString (totalSize exts) ++ " " ++ showHex b
+          | .error er => showErr er
+      | _, _ => "bad-op"
+  | ["size", n] =>
+      match n.toNat? with
+      | some n => toString (sizeOnDisk n)
+      | none => "bad-op"
   | _ => "bad-op"
 
 end Nb.Drv.C11
